@@ -193,8 +193,8 @@ def ref_gain(kind, dt, fcs, f, order=5):
     return float(abs(h[0]) ** 2)
 
 
-def fit(t, y, f, ph):
-    """least squares `y ~ g_re sin(2 pi f t + ph) + g_im cos(2 pi f t + ph) + m` on the central 60 %"""
+def fit(t, y, f, ph, A):
+    """least squares `y ~ A (g_re sin(2 pi f t + ph) + g_im cos(2 pi f t + ph)) + m` on the central 60 %: complex gain g"""
     n = len(t)
     lo, hi = int(0.2 * n), int(0.8 * n)
     tt, yy = t[lo:hi], y[lo:hi]
@@ -202,7 +202,7 @@ def fit(t, y, f, ph):
     M = np.column_stack([np.sin(arg), np.cos(arg), np.ones_like(tt)])
     c = np.linalg.lstsq(M, yy, rcond=None)[0]
     res = float(np.max(np.abs(yy - M @ c)))
-    return complex(c[0], c[1]), float(c[2]), res
+    return complex(c[0], c[1]) / A, float(c[2]), res
 
 
 def record_length(dt, fcs):
@@ -242,7 +242,7 @@ def sig_clauses(case, want_rec=False):
     if err is not None or np.shape(y) != np.shape(x) or not np.all(np.isfinite(y)):
         fails.append((O_RETURNS, "finite array of the input's shape", err or "shape %s / non-finite" % (np.shape(y),)))
         return fails, None, rec
-    g, m, res = fit(t, y, f, ph)
+    g, m, res = fit(t, y, f, ph, A)
     sc = A + abs(mean)
     G = ref_gain(kind, dt, fcs, f)
     G0 = 1.0 if kind in ("lp", "bs") else 0.0
@@ -325,7 +325,9 @@ def ts_build(case):
     ts = TimeSeries("c12", t, x)
     kw = {}
     if var in ("window", "window+step"):
-        kw["twin"] = (float(t[int(0.1 * n)]), float(t[int(0.9 * n)]))
+        i0 = int(0.1 * n)
+        i1 = i0 + ((int(0.9 * n) - i0) // k) * k        # retained span divisible by k: the new grid hits stored samples
+        kw["twin"] = (float(t[i0]), float(t[i1]))
     if var in ("step", "window+step"):
         kw["resample"] = float(k * dt)
     if var == "array":
@@ -353,7 +355,7 @@ def ts_clauses(case, want_rec=False):
     if len(t2) != len(y) or len(t2) < 2 or not np.all(np.isfinite(y)):
         return [(O_RETURNS, "time and data of equal length", "%d / %d" % (len(t2), len(y)))], None, rec, None
     dt2 = float(t2[1] - t2[0])
-    g, m, res = fit(np.asarray(t2, dtype=float), np.asarray(y, dtype=float), f, ph)
+    g, m, res = fit(np.asarray(t2, dtype=float), np.asarray(y, dtype=float), f, ph, A)
     sc = A + abs(mean)
     tol = TOL_IRR if case["variant"] == "irregular" else TOL
     G = ref_gain(kind, dt2, fcs, f)
@@ -487,7 +489,7 @@ def run(chk):
         "every run (streams steady / ts.steady) to %g of the amplitude, not proved" % TOL,
         "the closed form of the model (tan(pi f dt) ratios to the power 10) is the squared magnitude of scipy's own "
         "butter(5, fc, fs=1/dt) design: measured (stream spec, 1e-9)",
-        "steady state is read from a least-squares fit of sin / cos / constant on the central 60 % of a record of at least "
+        "steady state is read from a least-squares fit of sin / cos / constant on the central 60 %% of a record of at least "
         "%d / min(edge, band width) samples; end transients are excluded" % KLEN,
         "non-equidistant series: the comparison includes the linear interpolation error of the sampled sinusoid (f dt <= 0.01), "
         "tolerance %g" % TOL_IRR,
@@ -528,6 +530,8 @@ def run(chk):
     # ---- implementation side ------------------------------------------------------------------------------------------
     lines, meta = [], []
     n_extra_done = 0
+    worst = {}
+    chk.extra["worst_deviation_from_reference"] = worst   # per variant, relative to amplitude + |mean| (tolerance %g / %g)
     for case in cases:
         inp = slim(case)
         kind, fcs, f, A, ph, mean = (case[k] for k in ("kind", "fcs", "f", "A", "ph", "mean"))
@@ -546,6 +550,11 @@ def run(chk):
             stream = "ts."
         for (oracle, exp, obs) in fails:
             chk.fail(oracle, inp, exp, obs, measured=meas)
+        if meas is not None:
+            key = stream + case.get("variant", "signal")
+            dev = max(abs(complex(*meas["gain"]) - meas["ref"]) * A, abs(meas["mean"] - mean * (1.0 if kind in ("lp", "bs") else 0.0))) \
+                / (A + abs(mean))
+            worst[key] = max(worst.get(key, 0.0), dev)
         chk.dist("%s%s:%s" % (stream, case.get("variant", "signal"), kind))
         if meas is None or dt_model is None:
             # no result: the model side still says what the design should have been (for the record)
@@ -612,7 +621,11 @@ def run(chk):
 
 # ----------------------------------------------------------------------------------------------------------------------
 def replay(rp):
-    inp = dict(rp["input"])
+    src = rp.get("input") or (rp.get("first_disagreement") or {}).get("input")
+    if not src:
+        print("replay: nothing to re-run (no input recorded): %s" % rp.get("broken"))
+        return 1
+    inp = dict(src)
     inp.pop("differs_in", None)
     if inp.get("variant") == "irregular":
         r2 = __import__("random").Random(inp.get("jitter_seed", 0))
